@@ -500,15 +500,30 @@ Proof.
   rewrite C, G. cbn. apply IH. exact U2.
 Qed.
 
-Definition unconfused (i : input) : bool := match i with Hist _ _ ops => forallb op_unconfused (located ops) end.
+(* NewProvider's fold over the options computes exactly what the configuration designates *)
+Lemma fold_kopts opts : forall c, fold_left apply_kopt opts c =
+  KeyConf (match last_at opts with Some b => b | None => k_at c end)
+          (match last_hint opts with Some b => b | None => k_hint c end).
+Proof.
+  induction opts as [|o r IH]; intro c; cbn [fold_left last_at last_hint]; [now destruct c|].
+  rewrite IH. destruct o as [b|b]; cbn; destruct (last_at r), (last_hint r); reflexivity.
+Qed.
+Lemma configure_designated opts : configure opts = designated opts.
+Proof. unfold configure, designated. now rewrite fold_kopts. Qed.
+
+Definition unconfused (i : input) : bool :=
+  match i with Hist _ pol ops => forallb op_unconfused (located (designated (p_kopts pol)) ops) end.
 
 Theorem spec_model_partial : forall i, unconfused i = true -> spec i (model i) = true.
-Proof. intros [cl pol ops] U. exact (spec_run_model cl (located ops) (init pol) U). Qed.
+Proof.
+  intros [cl pol ops] U. cbn [model run_hist spec]. rewrite configure_designated.
+  exact (spec_run_model cl (located (designated (p_kopts pol)) ops) (init pol) U).
+Qed.
 
 (* Known finding Fxx-C08-1: a revoked JWT access token, declared as id_token, is accepted as
    exchange subject (the faithful model of the code says so). *)
 Definition refuting_clients := [Client "web" "web-secret" AMBasic false false true true; Client "web2" "web2-secret" AMPost true false true true].
-Definition refstore_policy := TEPolicy true None None false false None ActDefault "" LateNone.
+Definition refstore_policy := TEPolicy true None None false false None ActDefault "" LateNone [].
 Definition refuting_history :=
   Hist refuting_clients refstore_policy
     [(0, true, Issue Prov "web2" "bob" ["openid"]);
@@ -878,3 +893,24 @@ Proof.
   pose proof (gstep_step cl (g, 0) (EndSession r hint cid)) as G. cbn [step fst snd] in G. rewrite E in G. cbn [fst snd] in G.
   rewrite <- G. destruct x; try reflexivity. now elim NR.
 Qed.
+
+(* round 9: a JWT signed with the extra key is an access token nowhere unless the configuration
+   designates that key FOR ACCESS TOKENS - whatever the options say about id_token_hints *)
+Lemma extra_key_not_an_access_token opts host ku iss e jti sub azp :
+  k_at (designated opts) = false ->
+  let t := localize (configure opts) UAT host ku (PJwtX iss e jti sub azp) in
+  read_at t = None /\ as_access t = Junk /\
+  (forall r g s, userinfo r g t <> OInfo s) /\
+  (forall cl r g c s cid sc b, introspect cl r g c t <> OIntro true s cid sc b).
+Proof.
+  intro K. rewrite configure_designated. cbn [localize]. rewrite K. cbn zeta.
+  assert (R : read_at (Jwt (iss =? host) false e jti sub azp) = None) by (cbn; now rewrite andb_false_r).
+  split; [exact R|]. split; [now destruct (iss =? host)|]. split.
+  - intros r g s. unfold userinfo. rewrite R. discriminate.
+  - intros cl r g c s cid sc b. unfold introspect. rewrite R.
+    destruct (match r with Prov => auth_intro_prov cl c | Leg => auth_intro_leg cl c end); [discriminate|destruct r; discriminate].
+Qed.
+
+Lemma hint_option_says_nothing_about_access_tokens b : k_at (designated [OptHintKeys b]) = false /\
+  k_at (designated [OptHintKeys b; OptATKeys false]) = false /\ k_at (designated [OptATKeys false; OptHintKeys b]) = false.
+Proof. repeat split. Qed.
